@@ -562,7 +562,14 @@ impl<'a> Model<'a> {
         if sheet_index >= sheet_count {
             return Err("Sheet index too large".to_string());
         };
-        self.workbook.worksheets.remove(sheet_index as usize);
+        let worksheet = self.workbook.worksheets.remove(sheet_index as usize);
+        // The defined names local to the sheet go with it: left behind they
+        // would be reported (and parsed) as global names, and would attach
+        // themselves to a later sheet that reuses the sheet_id.
+        let sheet_id = worksheet.sheet_id;
+        self.workbook
+            .defined_names
+            .retain(|dn| dn.sheet_id != Some(sheet_id));
         self.reset_parsed_structures();
         Ok(())
     }
